@@ -4,6 +4,7 @@ import NbdimeProofs.Lemmas.ApplyOneSided
 import NbdimeProofs.Lemmas.ApplyKeywise
 import NbdimeProofs.Lemmas.KeywiseMore
 import NbdimeProofs.Lemmas.ApplyChoose
+import NbdimeProofs.Lemmas.MergeCells
 import NbdimeProofs.Lemmas.JsonEq
 import NbdimeProofs.Lemmas.NbWf
 import NbdimeProofs.Properties.C01
@@ -396,6 +397,193 @@ theorem C09_model_keywise_all (E : Env) (base : List (String × J)) (ld rd : Lis
   exact ⟨ds, h, a2, a1, C09_model_keywise_choose_local E base ld rd ds L hc hwfL hwfR hagree hL h,
     C09_model_keywise_choose_remote E base ld rd ds R hc hwfL hwfR hagree hR h⟩
 
+
+theorem ascPatchB_spec : ∀ (lo : Nat) (d : List Op), Merge.ascPatchB lo d = true → AscPatch lo d
+  | _, [], _ => trivial
+  | lo, .patchI j dd :: rest, h => by
+      simp only [Merge.ascPatchB, Bool.and_eq_true, decide_eq_true_eq] at h
+      exact ⟨h.1, ascPatchB_spec (j + 1) rest h.2⟩
+  | _, .add _ _ :: _, h => by simp [Merge.ascPatchB] at h
+  | _, .remove _ :: _, h => by simp [Merge.ascPatchB] at h
+  | _, .replace _ _ :: _, h => by simp [Merge.ascPatchB] at h
+  | _, .patchK _ _ :: _, h => by simp [Merge.ascPatchB] at h
+  | _, .addrange _ _ :: _, h => by simp [Merge.ascPatchB] at h
+  | _, .addchars _ _ :: _, h => by simp [Merge.ascPatchB] at h
+  | _, .removerange _ _ :: _, h => by simp [Merge.ascPatchB] at h
+  | _, .invalid _ :: _, h => by simp [Merge.ascPatchB] at h
+
+open Merge in
+/-- **C06 for cells, document level** (`apply_cells_only` under its decidable hypothesis `Merge.cellwise`, evaluated by the
+    driver on the ownership cases): the local side patches some items of one list of the root object (the cells), the remote
+    side patches others, neither inserts or removes items. Then whenever the merge returns decisions and the two diffs
+    apply one after the other, `apply_decisions ∘ decide_merge_with_diff` gives exactly that document — base with both
+    sets of changes — and no decision is a conflict, for every strategy table and every oracle. -/
+theorem C06_model_cells (E : Env) (base : J) (ld rd : List Op) (ds : List MD) (X : J)
+    (hcw : cellwise base ld rd = true) (hX : patchBoth base ld rd = .ok X)
+    (h : decideMerge E base ld rd = .ok ds) :
+    applyDecisions base (ds.map MD.toDecision) = .ok X ∧ ∀ d ∈ ds, d.conflict = false := by
+  unfold cellwise at hcw
+  split at hcw
+  · rename_i kvs k dL k' dR
+    simp only [Bool.and_eq_true, beq_iff_eq, Bool.not_eq_true', List.all_eq_true, bne_iff_ne, ne_eq] at hcw
+    obtain ⟨⟨⟨⟨⟨⟨⟨hkk, hc⟩, hlk⟩, haL⟩, haR⟩, hne⟩, hdis⟩, hpy⟩ := hcw
+    subst hkk
+    cases hl : lookupKV k kvs with
+    | none => simp [hl] at hlk
+    | some v =>
+      cases v with
+      | arr xs =>
+        unfold patchBoth at hX
+        simp only [bind, Except.bind] at hX
+        cases hL : patch (.obj kvs) [.patchK k dL] with
+        | error e => simp [hL] at hX
+        | ok L =>
+          simp only [hL] at hX
+          exact apply_cells_only E kvs k xs dL dR ds L X hc hl (ascPatchB_spec 0 dL haL) (ascPatchB_spec 0 dR haR)
+            (fun e0 h0 e1 h1 => hdis e0 h0 e1 h1) (by intro hnil; simp [hnil] at hne) hpy hL hX h
+      | null => simp [hl] at hlk
+      | bool _ => simp [hl] at hlk
+      | int _ => simp [hl] at hlk
+      | flt _ => simp [hl] at hlk
+      | str _ => simp [hl] at hlk
+      | obj _ => simp [hl] at hlk
+  · cases hcw
+
+open Merge in
+/-- end to end for notebooks: the local notebook `l` and the remote notebook `r` are diffed against `base` by the
+    notebook differ (any sound table configuration); if the two diffs are cell-wise disjoint (`Merge.cellwise`), the merged
+    document is the local notebook with the remote diff applied to it: both sets of cell edits, nothing else. -/
+theorem C06_notebook_cells (E : Env) (O : Oracle) (hO : OracleOK O) (cfg : Cfg) (hcfg : cfgSoundB cfg = true)
+    (base l : J) (ld rd : List Op) (ds : List MD) (X : J)
+    (cb : base.canonical = true) (cl : l.canonical = true) (hbl : Compat base l)
+    (hld : diffNotebooks O cfg base l = .ok ld) (hcw : cellwise base ld rd = true)
+    (hX : patch l rd = .ok X) (h : decideMerge E base ld rd = .ok ds) :
+    applyDecisions base (ds.map MD.toDecision) = .ok X ∧ ∀ d ∈ ds, d.conflict = false := by
+  have hl := C01_roundtrip_partial O hO cfg hcfg base l ld cb cl hbl hld
+  refine C06_model_cells E base ld rd ds X hcw ?_ h
+  simp [patchBoth, hl, hX, bind, Except.bind]
+
+open Merge in
+/-- **C09, choosing a side, for cell-wise merges**: with every decision switched to local (remote), `apply_decisions` gives
+    base patched with the local (remote) diff. -/
+theorem C09_model_cells_choose (loc : Bool) (E : Env) (base : J) (ld rd : List Op) (ds : List MD) (T : J)
+    (hcw : cellwise base ld rd = true) (hwL : wf base ld = true) (hwR : wf base rd = true)
+    (hL : ∃ L, patch base ld = .ok L) (hR : ∃ R, patch base rd = .ok R)
+    (hT : patch base (if loc then ld else rd) = .ok T) (h : decideMerge E base ld rd = .ok ds) :
+    applyAs (sideName loc) base (ds.map MD.toDecision) = .ok T := by
+  unfold cellwise at hcw
+  split at hcw
+  · rename_i kvs k dL k' dR
+    simp only [Bool.and_eq_true, beq_iff_eq, Bool.not_eq_true', List.all_eq_true, bne_iff_ne, ne_eq] at hcw
+    obtain ⟨⟨⟨⟨⟨⟨⟨hkk, hc⟩, hlk⟩, haL⟩, haR⟩, hne⟩, hdis⟩, hpy⟩ := hcw
+    subst hkk
+    cases hl : lookupKV k kvs with
+    | none => simp [hl] at hlk
+    | some v =>
+      cases v with
+      | arr xs =>
+        have hwl : ∀ d, wf (.obj kvs) [.patchK k d] = true → wfList xs d 0 none = true := by
+          intro d hw
+          rw [wf, wfObj] at hw
+          simp only [hl, Bool.and_eq_true] at hw
+          have := hw.1.2.2
+          rw [wf] at this
+          exact this
+        have hT' : patch (.obj kvs) [.patchK k (if loc then dL else dR)] = .ok T := by
+          cases loc <;> simpa using hT
+        exact cells_choose loc E kvs k xs dL dR ds T hc hl (ascPatchB_spec 0 dL haL) (ascPatchB_spec 0 dR haR)
+          (fun e0 h0 e1 h1 => hdis e0 h0 e1 h1) (by intro hnil; simp [hnil] at hne) hpy (hwl dL hwL) (hwl dR hwR) hL hR hT' h
+      | null => simp [hl] at hlk
+      | bool _ => simp [hl] at hlk
+      | int _ => simp [hl] at hlk
+      | flt _ => simp [hl] at hlk
+      | str _ => simp [hl] at hlk
+      | obj _ => simp [hl] at hlk
+  · cases hcw
+
+open Merge in
+/-- **C11 for the decisions of cell-wise merges**: every local / remote diff inside a decision is well-formed for the
+    sub-document at the decision's path -/
+theorem C11_model_cells_decisions_wf (E : Env) (base : J) (ld rd : List Op) (ds : List MD)
+    (hcw : cellwise base ld rd = true) (hwL : wf base ld = true) (hwR : wf base rd = true)
+    (h : decideMerge E base ld rd = .ok ds) :
+    ∀ d ∈ ds, ∀ x, (d.localDiff = some x ∨ d.remoteDiff = some x) → wfAt base d.path x = true := by
+  unfold cellwise at hcw
+  split at hcw
+  · rename_i kvs k dL k' dR
+    simp only [Bool.and_eq_true, beq_iff_eq, Bool.not_eq_true', List.all_eq_true, bne_iff_ne, ne_eq] at hcw
+    obtain ⟨⟨⟨⟨⟨⟨⟨hkk, hc⟩, hlk⟩, haL⟩, haR⟩, hne⟩, hdis⟩, hpy⟩ := hcw
+    subst hkk
+    cases hl : lookupKV k kvs with
+    | none => simp [hl] at hlk
+    | some v =>
+      cases v with
+      | arr xs =>
+        have hwl : ∀ d, wf (.obj kvs) [.patchK k d] = true → wfList xs d 0 none = true := by
+          intro d hw
+          rw [wf, wfObj] at hw
+          simp only [hl, Bool.and_eq_true] at hw
+          have := hw.1.2.2
+          rw [wf] at this
+          exact this
+        exact cells_decisions_wf E kvs k xs dL dR ds hl (ascPatchB_spec 0 dL haL) (ascPatchB_spec 0 dR haR)
+          (fun e0 h0 e1 h1 => hdis e0 h0 e1 h1) hpy (hwl dL hwL) (hwl dR hwR) h
+      | null => simp [hl] at hlk
+      | bool _ => simp [hl] at hlk
+      | int _ => simp [hl] at hlk
+      | flt _ => simp [hl] at hlk
+      | str _ => simp [hl] at hlk
+      | obj _ => simp [hl] at hlk
+  · cases hcw
+
+open Merge in
+/-- what `Merge.cellwise` says -/
+theorem cellwise_unpack {base : J} {ld rd : List Op} (h : cellwise base ld rd = true) :
+    ∃ kvs k xs dL dR, base = .obj kvs ∧ ld = [.patchK k dL] ∧ rd = [.patchK k dR] ∧ (J.obj kvs).canonical = true ∧
+      lookupKV k kvs = some (.arr xs) ∧ AscPatch 0 dL ∧ AscPatch 0 dR ∧ dL ≠ [] ∧
+      (∀ e0 ∈ dL, ∀ e1 ∈ dR, e0.idx ≠ e1.idx) ∧ Op.pyEq (.patchK k dL) (.patchK k dR) = false := by
+  unfold cellwise at h
+  split at h
+  · rename_i kvs k dL k' dR
+    simp only [Bool.and_eq_true, beq_iff_eq, Bool.not_eq_true', List.all_eq_true, bne_iff_ne, ne_eq] at h
+    obtain ⟨⟨⟨⟨⟨⟨⟨hkk, hc⟩, hlk⟩, haL⟩, haR⟩, hne⟩, hdis⟩, hpy⟩ := h
+    subst hkk
+    cases hl : lookupKV k kvs with
+    | none => simp [hl] at hlk
+    | some v =>
+      cases v with
+      | arr xs =>
+        exact ⟨kvs, k, xs, dL, dR, rfl, rfl, rfl, hc, hl, ascPatchB_spec 0 dL haL, ascPatchB_spec 0 dR haR,
+          (by intro hnil; simp [hnil] at hne), (fun e0 h0 e1 h1 => hdis e0 h0 e1 h1), hpy⟩
+      | null => simp [hl] at hlk
+      | bool _ => simp [hl] at hlk
+      | int _ => simp [hl] at hlk
+      | flt _ => simp [hl] at hlk
+      | str _ => simp [hl] at hlk
+      | obj _ => simp [hl] at hlk
+  · cases h
+
+open Merge in
+/-- **C05, side symmetry, on the cell-wise domain**: exchanging the local and the remote role gives the same merged
+    document (and no conflict either way) -/
+theorem C05_model_cells_symmetric (E : Env) (base : J) (ld rd : List Op) (ds1 ds2 : List MD) (X : J)
+    (hcw1 : cellwise base ld rd = true) (hcw2 : cellwise base rd ld = true) (hX : patchBoth base ld rd = .ok X)
+    (h1 : decideMerge E base ld rd = .ok ds1) (h2 : decideMerge E base rd ld = .ok ds2) :
+    applyDecisions base (ds1.map MD.toDecision) = .ok X ∧ applyDecisions base (ds2.map MD.toDecision) = .ok X ∧
+      (∀ d ∈ ds1, d.conflict = false) ∧ (∀ d ∈ ds2, d.conflict = false) := by
+  obtain ⟨a1, a2⟩ := C06_model_cells E base ld rd ds1 X hcw1 hX h1
+  obtain ⟨kvs, k, xs, dL, dR, rfl, rfl, rfl, hc, hl, haL, haR, _, hdis, _⟩ := cellwise_unpack hcw1
+  have hX2 : patchBoth (.obj kvs) [.patchK k dR] [.patchK k dL] = .ok X := by
+    unfold patchBoth at hX ⊢
+    simp only [bind, Except.bind] at hX ⊢
+    cases hL : patch (.obj kvs) [.patchK k dL] with
+    | error e => simp [hL] at hX
+    | ok L =>
+      simp only [hL] at hX
+      obtain ⟨R, hR1, hR2⟩ := patchBoth_cells_comm kvs hc k xs hl dL dR haL haR hdis L X hL hX
+      simp only [hR1, hR2]
+  obtain ⟨b1, b2⟩ := C06_model_cells E (.obj kvs) [.patchK k dR] [.patchK k dL] ds2 X hcw2 hX2 h2
+  exact ⟨a1, b1, a2, b2⟩
 
 namespace C05ex
 open Merge
